@@ -41,7 +41,7 @@ NULLARY_ACTIONS = [
 
 # a move-like action: the fact it deletes and the fact it adds coincide when the last two arguments do (the added fact stays)
 MOVE_ACTIONS = [
-    ("shift", [("?a", "t1"), ("?i", "t1"), ("?j", "t1")], ["and", ["q", "?a", "?i"]],
+    ("shift", [("?a", "t1"), ("?i", "t1"), ("?j", "t1")], ["and", ["q", "?a", "?i"], ["or", ["=", "?i", "?j"], ["p", "?j"], ["not", ["r"]]]],
      ["and", ["not", ["q", "?a", "?i"]], ["q", "?a", "?j"], ["increase", ["g"], "1"]]),
     # a quantified conditional effect whose condition reads what the same action changes (effects are simultaneous: the
     # condition is about the state before the action)
